@@ -3,7 +3,7 @@ from tools.vlib import *
 from props import C25 as relay
 
 PID = "C26"
-READY = False
+READY = True
 MANIFEST = {
     "level_text": "PARTIAL. Proved in Lean 4 about the relay model, for every event sequence over any number of clients and arbitrary "
                   "bytes in arbitrary chunks: the protocol loop always terminates — the one branch in which the C++ would spin forever "
